@@ -76,6 +76,8 @@ func (o hop) String() string {
 		return o.K + "(" + uMACName[o.M] + ")"
 	case "name":
 		return fmt.Sprintf("name(%s,%v,%q)", o.S, uIPs[o.I], uNames[o.N])
+	case "fname":
+		return fmt.Sprintf("fname(%s,%v,%s,%q)", uMACName[o.M], uIPs[o.I], o.S, uNames[o.N])
 	case "dhcp", "offer":
 		return fmt.Sprintf("%s(%s,%v,%q)", o.K, uMACName[o.M], uIPs[o.I], uNames[o.N])
 	}
@@ -102,6 +104,8 @@ var deadlineCfgs = []deadlines{
 
 func randHop(r *rand.Rand, d deadlines) hop {
 	switch c := r.Intn(20); {
+	case c < 1:
+		return hop{K: "fname", M: 2 + r.Intn(2), I: []int{0, 1, 2, 8, 9, 10}[r.Intn(6)], N: r.Intn(3), S: []string{"mdns", "ssdp", "llmnr", "nbns"}[r.Intn(4)]}
 	case c < 6:
 		return hop{K: "f4", M: r.Intn(5), I: r.Intn(8)}
 	case c < 8:
@@ -217,6 +221,7 @@ func (hr *hostsRun) history() {
 	}
 	prevKey := m.StateKey()
 	compare := hr.compare
+	rx := newRx()
 	for step, o := range hr.ops {
 		var want []model.Group
 		before := m.Triples()
@@ -225,7 +230,7 @@ func (hr *hostsRun) history() {
 		pi := c.Guard("C04", func() any { return cs(step) }, func() {
 			switch o.K {
 			case "f4", "f6", "arp", "dhcpframe":
-				b := buildFrame(o.K, mac, ip)
+				b := rx.load(buildFrame(o.K, mac, ip))
 				frame, err := s.Parse(b)
 				if err == nil {
 					s.Notify(frame)
@@ -236,10 +241,37 @@ func (hr *hostsRun) history() {
 					mip = uIPs[6]
 				}
 				want = m.Frame(kind, model.MAC(mac[:]), mip, o.K == "dhcpframe")
+			case "fname":
+				// a frame that a naming handler processes between Parse and Notify (as the packet loop does for mDNS/NBNS/LLMNR/SSDP)
+				kind, fk := "ip4", "f4"
+				if ip.Is6() {
+					kind, fk = "ip6", "f6"
+				}
+				b := rx.load(buildFrame(fk, mac, ip))
+				frame, err := s.Parse(b)
+				if err == nil {
+					if frame.Host != nil {
+						ne := packet.NameEntry{Type: o.S, Name: uNames[o.N]}
+						switch o.S {
+						case "mdns":
+							frame.Host.UpdateMDNSName(ne)
+						case "ssdp":
+							frame.Host.UpdateSSDPName(ne)
+						case "llmnr":
+							frame.Host.UpdateLLMNRName(ne)
+						default:
+							frame.Host.UpdateNBNSName(ne)
+						}
+					}
+					s.Notify(frame)
+				}
+				want = m.FrameNamed(kind, model.MAC(mac[:]), ip, o.S, uNames[o.N])
+				c.Obs("named_frames", 1)
 			case "dhcp":
-				s.DHCPv4Update(net.HardwareAddr(mac[:]), ip, packet.NameEntry{Type: "dhcp4", Name: uNames[o.N]})
+				// as a DHCP handler does: the MAC handed to DHCPv4Update is the chaddr field inside the receive buffer
+				b := rx.load(buildFrame("dhcpframe", mac, ip))
+				s.DHCPv4Update(net.HardwareAddr(b[14+20+8+28:14+20+8+34]), ip, packet.NameEntry{Type: "dhcp4", Name: uNames[o.N]})
 				m.DHCPUpdate(model.MAC(mac[:]), ip, uNames[o.N])
-				b := buildFrame("dhcpframe", mac, ip)
 				frame, err := s.Parse(b)
 				if err == nil {
 					s.Notify(frame)
@@ -283,6 +315,7 @@ func (hr *hostsRun) history() {
 			hr.viol = true
 			return
 		}
+		rx.scribble() // the next ReadFrom overwrites the receive buffer
 		synctest.Wait()
 		got := drain()
 		if fr := rec.Take(); hr.tx {
@@ -498,9 +531,9 @@ func (hr *hostsRun) checkNotifications(s *packet.Session, o hop, want []model.Gr
 		var hn [5]packet.NameEntry
 		if h != nil && string(h.MACEntry.MAC) == string(n.Addr.MAC) {
 			hn = [5]packet.NameEntry{h.DHCP4Name, h.MDNSName, h.SSDPName, h.LLMNRName, h.NBNSName}
-		} else {
-			hn = [5]packet.NameEntry{e.DHCP4Name, e.MDNSName, e.SSDPName, e.LLMNRName, e.NBNSName}
 		}
+		// else: the host was deleted in the same step; its host-level names are unknown now (another address of the MAC may
+		// have set the MAC-level value): the zero name and the MAC-level name are both acceptable
 		mn := [5]packet.NameEntry{e.DHCP4Name, e.MDNSName, e.SSDPName, e.LLMNRName, e.NBNSName}
 		nn := [5]packet.NameEntry{n.DHCP4Name, n.MDNSName, n.SSDPName, n.LLMNRName, n.NBNSName}
 		for i := range nn {
